@@ -75,7 +75,9 @@ CFG = dict(
     rule=("one case = one scenario: N in {1,2,4,16} goroutines logging planned records (sizes 10 B .. 64 KiB, levels on both sides "
           "of the threshold) through the root / handlers derived before / derived during the run, free running, with one writer "
           "held inside Write, or with goroutines parked in the middle of formatting; every Write call is recorded and compared "
-          "byte-for-byte with the line the implementation writes for that record alone; non-trivial = distinct case lines"),
+          "byte-for-byte with the line the implementation writes for that record alone; T cases: every entry point x 20 thresholds x "
+          "3 handlers x root/With/WithGroup, including every record Logger.Relay makes itself (REQ_BEG/REQ_END at Info, the panic "
+          "record at Error) for returning and panicking routes, each judged against its OWN level; non-trivial = distinct case lines"),
     trusted_base=[HARNESS_TB, EXTRACT_TB,
                   "gen/loggerfacts (go/ast): reads Handle/clone of the three handlers, freeBuffer/newBuffer/bufferPool and Logger.log/logf/logAttrs; "
                   "refuses (broken correspondence) when the code shape is not the one it knows",
